@@ -33,6 +33,11 @@ func init() { register("C06", checkC06) }
 //	    the real code; both sides are computed by the implementation, so
 //	    operator defects cancel out.
 //
+//	(c) parentheses override everything also in evaluation: FullParen(t) must
+//	    not print what the reference evaluation gives ANOTHER grouping of the
+//	    same tokens under operands that tell the two apart (an evaluator that
+//	    re-associates a + (b + c) is invisible to (a) and (b)).
+//
 // The deviation parse-right-assoc explains exactly: the real tree equals
 // ParseExprDev(Render(t)) and the real output equals that of its fully
 // parenthesised form.  Anything else is a violation.
@@ -51,9 +56,10 @@ type c06Out struct {
 }
 
 type c06Run struct {
-	Vals []c06Val `json:"vals"`
-	Tys  []string `json:"tys"`
-	Out  c06Out   `json:"out"`
+	Vals    []c06Val `json:"vals"`
+	Tys     []string `json:"tys"`
+	Out     c06Out   `json:"out"`
+	AltOuts []c06Out `json:"altouts"` // the other groupings under the same operands ("unk": not told apart from Out)
 }
 
 type c06Dev struct {
@@ -269,7 +275,7 @@ func checkC06(c *Ctx) {
 	c.Assume("operands are variables (assigned first) and, for the first assignment of each tree, literals; numbers are small positive integers, one string, booleans; regex, null, unset, match, object literals as operands are outside the enumeration")
 	c.Assume("layout is fixed: single spaces around binary operators, none after a prefix operator (layout independence is C13; `3-1` is mis-lexed: F15)")
 	c.Assume("whether `a + b += c` (compound assignment to a non-assignable target) is refused statically is not compared (C11); for `=` the refusal is compared because it is what `=` binding loosest means")
-	c.Assume("the reference evaluation (MC_Parse.Ev) only chooses operands and is reported as model_value_agree/disagree; a disagreement on a fully parenthesised text is an operator question (C05), not a verdict here")
+	c.Assume("the reference evaluation (MC_Parse.Ev) chooses operands and is a verdict in one way only: a fully parenthesised text that prints, not the value of its own grouping, but exactly the value and variables the reference gives ANOTHER grouping of the same tokens (both inside the evaluated universe and different) was evaluated as that other grouping; a value matching neither is an operator question (C05), reported as model_value_disagree, not judged; runtime errors are never matched this way")
 	c.Assume("operator sequences longer than 3 are sampled (family deep, from the seed) or restricted to assignment chains (chain4)")
 	pool := c.Pool()
 
@@ -282,7 +288,7 @@ func checkC06(c *Ctx) {
 
 	famCount := map[string]int{}
 	var nCases, nAlt, nDiscModel, nDiscImpl, nAltImplRun, nRuns, nTreeOnly int
-	var modelAgree, modelDisagree, modelUnknown int
+	var modelAgree, modelDisagree, modelUnknown, nRegrouped, nRegroupChecks int
 	var disagreeSamples []any
 	type devHit struct {
 		text string
@@ -385,6 +391,42 @@ func checkC06(c *Ctx) {
 					"why": "the expression and its fully parenthesised form print different things"}))
 				return
 			}
+			// ---- (c) parentheses override everything, on the evaluator's side too: the
+			// fully parenthesised text (and the literal form) must not print what ANOTHER
+			// grouping of the same tokens evaluates to.  The reference evaluation is
+			// used only in this way: real != model(t) and real == model(other grouping),
+			// both inside the evaluated universe and different.  A value that matches
+			// neither is an operator question (C05) and is not judged here; runtime
+			// errors are never matched (a spurious refusal is an operator defect).
+			if run.Out.K == "ok" {
+				for _, form := range []string{"", "-lit"} {
+					rf, ok := at(fmt.Sprintf("run%d-full%s", q, form))
+					if !ok || rf.Class != "ok" {
+						continue
+					}
+					got := string(rf.Stdout)
+					for _, ao := range run.AltOuts {
+						if ao.K == "ok" && c06Want(ao) != c06Want(run.Out) {
+							nRegroupChecks++
+						}
+					}
+					if strings.HasPrefix(got, c06Want(run.Out)) {
+						continue
+					}
+					for x, ao := range run.AltOuts {
+						if ao.K != "ok" || c06Want(ao) == c06Want(run.Out) || !strings.HasPrefix(got, c06Want(ao)) {
+							continue
+						}
+						nRegrouped++
+						c.Violation("evaluated-as-other-grouping", rep(map[string]any{"operands": c06Literals(run.Vals), "types": run.Tys, "form": form,
+							"program": string(c06Program(c06Layout(c06Subst(cs.Full, run, form != "")), run)),
+							"got":     got, "intended_grouping_prints": c06Want(run.Out),
+							"other_grouping": c06Layout(c06Subst(cs.Alts[x], run, form != "")), "other_grouping_prints": c06Want(ao),
+							"why": "the fully parenthesised expression prints what a different grouping of the same tokens evaluates to: the parentheses were not honoured in evaluation"}))
+						return
+					}
+				}
+			}
 			// the reference evaluation against the fully parenthesised text (reported only)
 			if rf, ok := at(fmt.Sprintf("run%d-full", q)); ok {
 				switch run.Out.K {
@@ -400,11 +442,7 @@ func checkC06(c *Ctx) {
 						}
 					}
 				case "ok":
-					envs := make([]string, len(run.Out.Env))
-					for i, v := range run.Out.Env {
-						envs[i] = c06Printed(v)
-					}
-					want := c06Printed(run.Out.V) + "\n" + strings.Join(envs, " ") + "\n"
+					want := c06Want(run.Out)
 					if rf.Class == "ok" && strings.HasPrefix(string(rf.Stdout), want) {
 						modelAgree++
 					} else {
@@ -580,6 +618,8 @@ func checkC06(c *Ctx) {
 	c.Set("alternatives_told_apart_by_model_operands", nDiscModel)
 	c.Set("alternatives_told_apart_on_impl", nDiscImpl)
 	c.Set("trees_with_alternatives_but_never_told_apart", nTreeOnly)
+	c.Set("other_grouping_values_ruled_out", nRegroupChecks)
+	c.Set("evaluated_as_other_grouping", nRegrouped)
 	c.Set("model_value_agree", modelAgree)
 	c.Set("model_value_disagree", modelDisagree)
 	c.Set("model_value_outside_universe", modelUnknown)
@@ -589,6 +629,15 @@ func checkC06(c *Ctx) {
 	c.Set("trees_explained_by_parse_right_assoc", devCases)
 	c.Set("tlc_wall_s", tlcWall.Seconds())
 	_ = nAltImplRun
+}
+
+// c06Want: the first two output lines (value, then the variables) a model outcome prescribes
+func c06Want(o c06Out) string {
+	envs := make([]string, len(o.Env))
+	for i, v := range o.Env {
+		envs[i] = c06Printed(v)
+	}
+	return c06Printed(o.V) + "\n" + strings.Join(envs, " ") + "\n"
 }
 
 func c06Literals(vs []c06Val) []string {
